@@ -232,7 +232,8 @@ def assemble(unit_path, variant=None):
                    + ("broadcast use {" + ", ".join("super::" + g for g in getattr(A, "groups", [])) + "};\n" if getattr(A, "groups", []) else ""), "raw", os.path.basename(unit_path))
         elif d == "endmod":
             close_section(); flush()
-            A.emit("}\npub use " + rest + "::*;", "raw", os.path.basename(unit_path))
+            epos, ekv = parse_kv(rest)
+            A.emit("}" + ("" if "noexport" in epos[1:] else "\npub use " + epos[0] + "::*;"), "raw", os.path.basename(unit_path))
         elif d in ("use", "lemmas"):
             close_section(); flush()
             path = os.path.join(VERIF, rest)
